@@ -98,6 +98,8 @@ class SigmaRuleBase:
         SigmaRule object. Else the first recognized error is raised as exception.
         """
         errors = []
+        if not isinstance(rule, dict):
+            raise sigma_exceptions.SigmaTypeError("Sigma rule must be a map", source=source)
 
         def get_rule_as_date(name: str, exception_class: type[SigmaError]) -> date | None:
             """
